@@ -22,6 +22,10 @@ type c03Read struct {
 	End    int    `json:"end,omitempty"`
 	RevSel int    `json:"revsel"` // <0: revision 0 (latest); otherwise selects among first..current
 	Limit  int    `json:"limit,omitempty"`
+	// After / Until: the lower / upper bound of a list or count is pool key K followed by a zero byte ("immediately
+	// after that key": next page of a paginated list, single-key range)
+	After bool `json:"after,omitempty"`
+	Until bool `json:"until,omitempty"`
 }
 
 type c03Step struct {
@@ -98,6 +102,9 @@ func genC03(t *rapid.T) interface{} {
 		r.Start, r.End = DrawIntn(t, nb, "start"), DrawIntn(t, nb, "end")
 		r.RevSel = rapid.IntRange(-3, 40).Draw(t, "revsel")
 		r.Limit = rapid.IntRange(0, len(c.Keys)+1).Draw(t, "limit")
+		if r.Kind == "list" || r.Kind == "count" {
+			r.After, r.Until = DrawBool(t, 20, "after"), DrawBool(t, 10, "until")
+		}
 		c.Steps = append(c.Steps, c03Step{R: r})
 	}
 	if c.Engine == engTiKVRegions {
@@ -196,6 +203,14 @@ func runC03(ci interface{}, st *CaseStats) error {
 			priors = append(priors, c03Prior{kind: "get", key: k, rev: rev, digest: d})
 		case "list":
 			a, b := bounds[r.Start%len(bounds)], bounds[r.End%len(bounds)]
+			if r.After {
+				a = append([]byte(keys[r.K%len(keys)]), 0)
+				st.Label("bound-immediately-after-a-key")
+			}
+			if r.Until {
+				b = append([]byte(keys[(r.K+1)%len(keys)]), 0)
+				st.Label("bound-immediately-after-a-key")
+			}
 			if bytes.Compare(a, b) > 0 {
 				a, b = b, a
 			}
@@ -219,6 +234,12 @@ func runC03(ci interface{}, st *CaseStats) error {
 			priors = append(priors, c03Prior{kind: "list", start: a, end: b, rev: rev, limit: int64(r.Limit), digest: d})
 		case "count":
 			a, b := bounds[r.Start%len(bounds)], bounds[r.End%len(bounds)]
+			if r.After {
+				a = append([]byte(keys[r.K%len(keys)]), 0)
+			}
+			if r.Until {
+				b = append([]byte(keys[(r.K+1)%len(keys)]), 0)
+			}
 			if bytes.Compare(a, b) > 0 {
 				a, b = b, a
 			}
